@@ -91,7 +91,23 @@ def parseEv (ev : List SExp) : Option TW.Ev :=
   | .atom "run" :: _ => some .run
   | _ => none
 
-def runTimeCase (id : String) (pipe : SExp) (events : List (List SExp)) : List String :=
+/-- Field `fb` (feedback): the subscriber, on receiving the item `v > 0`, pushes `v - 1` into hot subject 0 from
+    inside its callback.  The generators use it only for chains in which every item passes through a scheduler
+    task (`delay` / `observe_on`) and only with `poll` / `fire` / `adv` events (no `run`): a poll delivers at most
+    one item and the task ends with that delivery, so doing the emission right AFTER the polling event is the same
+    history as doing it INSIDE the callback. -/
+def feedBack : Nat → TW → List Notif → TW
+  | 0, w, _ => w
+  | _, w, [] => w
+  | f + 1, w, n :: ns =>
+    match n with
+    | .next (.int (.ofNat (v + 1))) =>
+      let w1 := w.step (.emit 0 (.next (.int (.ofNat v))))
+      feedBack f w1 (ns ++ w1.log.drop w.log.length)
+    | _ => feedBack f w ns
+
+def runTimeCase (id : String) (pipe : SExp) (events : List (List SExp)) (fb : Bool := false) :
+    List String :=
   let (src, stages) := parseChain pipe
   let rec go (w : TW) (k : Nat) : List (List SExp) → List String
     | [] => []
@@ -107,7 +123,8 @@ def runTimeCase (id : String) (pipe : SExp) (events : List (List SExp)) : List S
       | _ =>
         match parseEv ev with
         | some x =>
-          let w' := w.step x
+          let w0 := w.step x
+          let w' := if fb then feedBack 64 w0 (w0.log.drop w.log.length) else w0
           let delta := w'.log.drop w.log.length
           s!"{id}.{k} {showOut delta} live={w'.sched.liveTasks.length} tm={w'.sched.timers.length} t={w'.sched.now}"
             :: go w' (k + 1) r
